@@ -56,6 +56,8 @@ func HandWritten() []*Case {
 		mk("h36", "union-unexported-member", "ph36", "type Shape interface{ isShape() }\ntype Circle struct{ R float64 }\nfunc (Circle) isShape() {}\ntype square struct{ A float64 }\nfunc (square) isShape() {}\ntype W struct{ S Shape }\n", ""),
 		mk("h37", "union-members-named-slice-and-map", "ph37", "type U interface{ isU() }\ntype Labels []string\nfunc (Labels) isU() {}\ntype Attrs map[string]int\nfunc (Attrs) isU() {}\ntype X struct{ N int }\nfunc (X) isU() {}\ntype W struct {\n\tV U\n\tL UL\n}\ntype UL []U\n", ""),
 		withSub(mk("h21", "short-imported-package-name", "ph21", "type S struct{ V ab.T; W ab.N }\n", ""), "ab", "type T struct{ X int }\ntype N int\n"),
+		mk("h41", "typed-constants-of-a-standard-library-type", "ph41", "const DefaultTimeout time.Duration = 30 * time.Second\nconst MaxTimeout time.Duration = time.Minute\ntype Job struct {\n\tTimeout time.Duration\n\tName string\n}\n", ""),
+		mk("h42", "all-union-fields-ignored", "ph42", "type Payload interface{ isPayload() }\ntype Text struct{ Value string `json:\"value\"` }\nfunc (Text) isPayload() {}\ntype Number struct{ N int }\nfunc (Number) isPayload() {}\ntype Audit struct {\n\tId int\n\tPayload Payload `json:\"payload\" gomacro:\"ignore\"`\n}\ntype Mixed struct {\n\tA Payload `gomacro:\"ignore\"`\n\tB Payload\n}\ntype Event struct{ P Payload }\n", ""),
 		withSub(mk("h40", "embedded-non-struct-fields", "ph40", "type Kind int\nconst (\n\tPlain Kind = iota + 1\n\tFancy\n)\ntype Level string\nconst (\n\tLow Level = \"low\"\n\tHigh Level = \"high\"\n)\ntype Tags []string\ntype Shape struct {\n\tKind\n\tLevel\n\tTags\n\tName string\n\tAt geo.Point\n}\n", ""), "geo", "type Geometry interface{ isGeometry() }\ntype Point struct{ X, Y float64 }\nfunc (Point) isGeometry() {}\ntype Line struct{ A, B Point }\nfunc (Line) isGeometry() {}\n"),
 		withSub(mk("h38", "named-basic-first-reached-in-its-own-package", "ph38", "type Link struct {\n\tOwner own.Owner\n\tID own.ID\n}\n", ""), "own", "type ID int64\ntype Owner struct{ ID ID }\n"),
 		withSub(mk("h39", "named-basic-used-by-two-files", "ph39", "type A struct {\n\tK ids.Key\n\tL []ids.Key\n\tM map[ids.Key]ids.Name\n}\n", "type B struct {\n\tK ids.Key\n\tN ids.Name\n}\n"), "ids", "type Key int64\ntype Name string\ntype Holder struct {\n\tK Key\n\tN Name\n}\n"),
